@@ -243,6 +243,7 @@ class ModuleLoader:
     def _load(self, base: str, filename: str) -> dict[str, Any]:
         acquire_lock()
         try:
+            _verif_point('load:locked', base)
             module = sys.modules.get(base)
             if module is None:
                 loader = SourceFileLoader(base, filename)
@@ -250,9 +251,13 @@ class ModuleLoader:
                 if spec is None:
                     raise ModuleNotFoundError(f"{base} ({filename})")
                 module = module_from_spec(spec)
+                _verif_point('load:created', base)
                 loader.exec_module(module)
+                _verif_point('load:executed', base)
                 sys.modules[base] = module
+                _verif_point('load:registered', base)
         finally:
             release_lock()
 
+        _verif_point('load:released', base)
         return module.__dict__
